@@ -102,7 +102,11 @@ pub fn oligo(seed: u64, n: usize, maxlen: usize, dir: &str) {
             let out = format!("{}/tr_oligo_{}_{}.out", dir, k, norm);
             let threads = 2 + rng.below(14) as usize;
             let delim = *rng.pick(&[" ", ",", "\t"]);
-            run_oligo(&inp, &out, k, norm, WPath::Auto, threads, delim, false, None).unwrap();
+            if k % 2 == 0 {
+                run_oligo_reused(&inp, &out, k, norm, WPath::Auto, threads, delim, false, None).unwrap();
+            } else {
+                run_oligo(&inp, &out, k, norm, WPath::Auto, threads, delim, false, None).unwrap();
+            }
             let lines = lines_of(&out);
             for (i, (s, same)) in recs.iter().enumerate() {
                 orec_event(k, norm, s, lines.get(i), delim, *same, "lib");
